@@ -3229,6 +3229,12 @@ yin_parse_extension_instance_arg(struct lysp_yin_ctx *ctx, enum ly_stmt parent_s
 
         /* load closing tag of subelement */
         LY_CHECK_RET(lyxml_ctx_next(ctx->xmlctx));
+        if (ctx->xmlctx->status != LYXML_ELEM_CLOSE) {
+            /* the argument element has character content only */
+            LOGVAL_PARSER((struct lysp_ctx *)ctx, LY_VCODE_UNEXP_SUBELEM, (int)ctx->xmlctx->name_len, ctx->xmlctx->name,
+                    parent_stmt == LY_STMT_ERROR_MESSAGE ? "value" : "text");
+            return LY_EVALID;
+        }
         break;
     default:
         LOGINT(ctx->xmlctx->ctx);
@@ -3355,6 +3361,13 @@ yin_parse_element_generic(struct lysp_yin_ctx *ctx, enum ly_stmt parent_stmt, st
     } else {
         /* save element content */
         if (ctx->xmlctx->value_len) {
+            if ((*element)->kw != LY_STMT_EXTENSION_INSTANCE) {
+                /* the argument of a YANG statement is an attribute or the first sub-element, never text content */
+                LOGVAL_PARSER(ctx, LYVE_SYNTAX, "Element \"%s\" with unexpected text content \"%.*s\".", (*element)->stmt,
+                        (int)ctx->xmlctx->value_len, ctx->xmlctx->value);
+                ret = LY_EVALID;
+                goto cleanup;
+            }
             INSERT_STRING_RET(ctx->xmlctx->ctx, ctx->xmlctx->value, ctx->xmlctx->value_len, ctx->xmlctx->dynamic, (*element)->arg);
             LY_CHECK_ERR_GOTO(!(*element)->arg, ret = LY_EMEM, cleanup);
 
@@ -3365,6 +3378,12 @@ yin_parse_element_generic(struct lysp_yin_ctx *ctx, enum ly_stmt parent_stmt, st
 
         /* read closing tag */
         LY_CHECK_GOTO(ret = lyxml_ctx_next(ctx->xmlctx), cleanup);
+        if (ctx->xmlctx->status != LYXML_ELEM_CLOSE) {
+            /* mixed content */
+            LOGVAL_PARSER(ctx, LYVE_SYNTAX, "Element \"%s\" with both text content and sub-elements.", (*element)->stmt);
+            ret = LY_EVALID;
+            goto cleanup;
+        }
     }
 
 cleanup:
